@@ -82,6 +82,16 @@ func LoadProgram(repo string, tags string, specsDir string) (*Program, error) {
 }
 
 func (p *Program) pkgByName(name string) *types.Package { return p.byName[name] }
+
+// timeType: time.Time, if package time is loaded
+func (p *Program) timeType() types.Type {
+	if tp := p.byPath["time"]; tp != nil {
+		if o := tp.Scope().Lookup("Time"); o != nil {
+			return o.Type()
+		}
+	}
+	return nil
+}
 func (p *Program) typesPkg(path string) *types.Package  { return p.byPath[path] }
 func (p *Program) globalVar(o types.Object) *ssa.Global { return p.globalsByObj[o] }
 
@@ -333,6 +343,9 @@ func (p *Program) mapNames(ms *modSet, mt *types.Map) {
 		return
 	}
 	ks := p.W.scalarSort(mt.Key())
+	if n := packedKeyLen(mt.Key()); n > 0 {
+		ks = Sort(fmt.Sprintf("(_ BitVec %d)", 8*n))
+	}
 	fd, fv, fl := mapFams(mt)
 	ms.names[fd] = arrSort(SBV64, arrSort(ks, SBool))
 	ms.names[fl] = arrSort(SBV64, SBV64)
